@@ -14,6 +14,7 @@ import (
 	"go/ast"
 	"go/constant"
 	"go/token"
+	"sort"
 	"strings"
 
 	"verif/extract/elib"
@@ -761,6 +762,98 @@ func main() {
 			}
 		}
 		o.Set("const.editTypes", "manifest/types.go:EditAddFile..EditRegion", strings.Join(vals, ","), ok, "0,1,2,3,4,5,6,7")
+	}
+
+	{
+		// enc.fresh: every pinned encoder returns bytes it owns - no sync.Pool and no package-level
+		// variable is touched in its body (EncodeEntryTo may use headerPool: the header bytes are
+		// copied into the caller's writer before the pooled array is returned).  A pooled or shared
+		// result buffer would alias the payloads of successive calls; the round-trip theorems are
+		// per call and do not see that (the harness' hold/check cases do).
+		type encFn struct {
+			file, fn string
+			allowed  map[string]bool
+		}
+		fns := []encFn{
+			{"percolator/codec.go", "EncodeLock", nil}, {"percolator/codec.go", "EncodeWrite", nil},
+			{"manifest/codec.go", "writeEdit", nil}, {"manifest/codec.go", "appendBytes", nil},
+			{"kv/key.go", "InternalKey", nil}, {"kv/key.go", "KeyWithTs", nil}, {"kv/cf.go", "EncodeKeyWithCF", nil},
+			{"kv/value.go", "ValuePtr.Encode", nil}, {"kv/value.go", "ValueStruct.EncodeValue", nil},
+			{"kv/entry_codec.go", "EntryHeader.Encode", nil}, {"kv/entry_codec.go", "EncodeEntry", nil},
+			{"kv/entry_codec.go", "EncodeEntryTo", map[string]bool{"headerPool": true}},
+			{"raftstore/command/codec.go", "Encode", nil},
+			{"raftstore/engine/wal_storage.go", "encodeRaftEntries", nil}, {"raftstore/engine/wal_storage.go", "encodeRaftHardState", nil},
+			{"raftstore/engine/wal_storage.go", "encodeRaftSnapshot", nil}, {"raftstore/engine/wal_storage.go", "writeUvarint", nil},
+		}
+		var offenders []string
+		missing := false
+		files := map[string]*elib.File{}
+		for _, e := range fns {
+			ef := files[e.file]
+			if ef == nil {
+				ef = o.Load(e.file)
+				files[e.file] = ef
+			}
+			fd := ef.Func(e.fn)
+			if fd == nil || fd.Body == nil {
+				missing = true
+				offenders = append(offenders, e.fn+":missing")
+				continue
+			}
+			fileVars := map[string]bool{}
+			for _, d := range ef.AST.Decls {
+				if gd, isGen := d.(*ast.GenDecl); isGen && gd.Tok == token.VAR {
+					for _, sp := range gd.Specs {
+						for _, n := range sp.(*ast.ValueSpec).Names {
+							fileVars[n.Name] = true
+						}
+					}
+				}
+			}
+			locals := map[string]bool{}
+			ast.Inspect(fd, func(x ast.Node) bool {
+				switch n := x.(type) {
+				case *ast.AssignStmt:
+					if n.Tok == token.DEFINE {
+						for _, l := range n.Lhs {
+							if id, isID := l.(*ast.Ident); isID {
+								locals[id.Name] = true
+							}
+						}
+					}
+				case *ast.ValueSpec:
+					for _, id := range n.Names {
+						locals[id.Name] = true
+					}
+				case *ast.Field:
+					for _, id := range n.Names {
+						locals[id.Name] = true
+					}
+				}
+				return true
+			})
+			seen := map[string]bool{}
+			ast.Inspect(fd.Body, func(x ast.Node) bool {
+				id, isID := x.(*ast.Ident)
+				if !isID || locals[id.Name] || seen[id.Name] {
+					return true
+				}
+				lower := strings.ToLower(id.Name)
+				if (fileVars[id.Name] || strings.Contains(lower, "pool")) && !e.allowed[id.Name] {
+					seen[id.Name] = true
+					offenders = append(offenders, e.fn+":"+id.Name)
+				}
+				return true
+			})
+		}
+		sort.Strings(offenders)
+		if len(offenders) == 0 {
+			o.Set("enc.fresh", "encoders of percolator, manifest, kv, raftstore/command, raftstore/engine", "true", true, "true")
+		} else {
+			o.Anchors["enc.offenders"] = strings.Join(offenders, ",")
+			o.Set("enc.fresh", "encoders: "+strings.Join(offenders, ","), "", false, "true")
+		}
+		_ = missing
 	}
 
 	// ------------------------------------------------------------ Lean
